@@ -850,7 +850,24 @@ func nilSafe(prog *load.Program, m *types.Func) bool {
 
 // recursionSites: every call inside a call-graph cycle of moq's packages must
 // be structural (its argument is a component of the value switched on).
+var (
+	recSitesProg *load.Program
+	recSites     []*panicSite
+)
+
 func recursionSites(prog *load.Program) []*panicSite {
+	if recSitesProg != prog {
+		recSitesProg, recSites = prog, recursionSites1(prog)
+	}
+	out := make([]*panicSite, len(recSites))
+	for i, s := range recSites {
+		c := *s
+		out[i] = &c
+	}
+	return out
+}
+
+func recursionSites1(prog *load.Program) []*panicSite {
 	type edge struct {
 		to   *types.Func
 		call *ast.CallExpr
@@ -930,10 +947,35 @@ func structuralArg(info *types.Info, fd *ast.FuncDecl, a ast.Expr) bool {
 // structural accessors rooted at the switch symbol, at a local derived from one, or at a parameter of
 // an enclosing function literal / unexported moq function all of whose calls pass such a component.
 // needAccessor: at least one accessor must be applied somewhere along the way (a strict component).
+type structKey struct {
+	fd   *ast.FuncDecl
+	pos  token.Pos
+	end  token.Pos
+	need bool
+}
+
+var structMemo = map[structKey]int{} // 0 unknown, 1 in progress / false, 2 true
+
 func structuralFrom(prog *load.Program, info *types.Info, fd *ast.FuncDecl, a ast.Expr, needAccessor bool, depth int) bool {
 	if depth > 4 {
 		return false
 	}
+	key := structKey{fd, a.Pos(), a.End(), needAccessor}
+	switch structMemo[key] {
+	case 1:
+		return false
+	case 2:
+		return true
+	}
+	structMemo[key] = 1
+	r := structuralFrom1(prog, info, fd, a, needAccessor, depth)
+	if r {
+		structMemo[key] = 2
+	}
+	return r
+}
+
+func structuralFrom1(prog *load.Program, info *types.Info, fd *ast.FuncDecl, a ast.Expr, needAccessor bool, depth int) bool {
 	e := ast.Unparen(a)
 	n := 0
 	for {
@@ -1053,21 +1095,15 @@ func structuralFrom(prog *load.Program, info *types.Info, fd *ast.FuncDecl, a as
 				return false
 			}
 			calls, good := 0, 0
-			funcsOf(prog, func(pkgPath string, cinfo *types.Info, cfd *ast.FuncDecl, caller *types.Func) {
-				ast.Inspect(cfd.Body, func(nn ast.Node) bool {
-					call, ok := nn.(*ast.CallExpr)
-					if !ok {
-						return true
-					}
-					if cf, ok := typeutil.Callee(cinfo, call).(*types.Func); ok && cf.Origin() == self && pi < len(call.Args) {
-						calls++
-						if structuralFrom(prog, cinfo, cfd, call.Args[pi], need, depth+1) {
-							good++
-						}
-					}
-					return true
-				})
-			})
+			for _, cs := range staticCallsOf(prog, self) {
+				if pi >= len(cs.call.Args) {
+					continue
+				}
+				calls++
+				if structuralFrom(prog, cs.info, cs.fd, cs.call.Args[pi], need, depth+1) {
+					good++
+				}
+			}
 			return calls > 0 && calls == good
 		default:
 			return false
